@@ -169,4 +169,168 @@ theorem early_of (Ek1 s T now ato τ : Nat) (h1 : τ < Ek1) (h2 : (now - s * 100
   generalize s * T = P at key ⊢
   omega
 
+
+/-! ## monotone ends -/
+
+theorem E_succ (a : Asset) (r : Rep) (h : Contig r) (hc : Closes a r) (k : Nat) :
+    E a r (k + 1) = E a r k + segDur r (k + 1) := by
+  rw [E_eq_S_add a r h (k+1), c01_gap_free a r h hc k]
+
+theorem segDur_pos (r : Rep) (h : Contig r) (k : Nat) : 0 < segDur r k := by
+  unfold segDur
+  have := h.2.1 (k % r.N) (Nat.mod_lt _ h.1)
+  omega
+
+theorem E_strictMono (a : Asset) (r : Rep) (h : Contig r) (hc : Closes a r) (k k' : Nat) (hk : k < k') :
+    E a r k < E a r k' := by
+  induction k' with
+  | zero => omega
+  | succ n ih =>
+    have hs := E_succ a r h hc n
+    have hp := segDur_pos r h (n + 1)
+    by_cases he : k = n
+    · subst he; omega
+    · have := ih (by omega); omega
+
+
+theorem listFrom_length (r : Rep) (first count t : Nat) : (listFrom r first count t).length = count := by
+  induction count generalizing first t with
+  | zero => simp [listFrom]
+  | succ c ih => simp [listFrom, ih]
+
+
+/-- ticks elapsed (plus offset) at the instant `x` ms after stream start: the argument of the edge search after the
+carry into the wrap count -/
+theorem edge_instant (a : Asset) (r : Rep) (hadm : a.loopMS * r.T = 1000 * r.dur) (hc : Closes a r)
+    (x atoMS : Nat) (hl : 0 < a.loopMS) (hD : 0 < r.dur) :
+    let relNow := (x % a.loopMS + atoMS) * r.T / 1000
+    (x / a.loopMS + relNow / r.dur) * wrapDur a r + relNow % r.dur = (x + atoMS) * r.T / 1000 := by
+  intro relNow
+  rw [hc.1]
+  have e1 : (x / a.loopMS + relNow / r.dur) * r.dur + relNow % r.dur = x / a.loopMS * r.dur + relNow := by
+    rw [Nat.add_mul]
+    have := Nat.div_add_mod relNow r.dur
+    rw [Nat.mul_comm] at this
+    omega
+  rw [e1]
+  have hx := Nat.div_add_mod x a.loopMS
+  have e2 : (x + atoMS) * r.T = 1000 * (x / a.loopMS * r.dur) + (x % a.loopMS + atoMS) * r.T := by
+    have : 1000 * (x / a.loopMS * r.dur) = x / a.loopMS * (a.loopMS * r.T) := by
+      rw [hadm, Nat.mul_left_comm]
+    rw [this, ← Nat.mul_assoc, ← Nat.add_mul, Nat.mul_comm (x / a.loopMS) a.loopMS]
+    congr 1; omega
+  rw [e2, Nat.mul_add_div (by decide : 0 < 1000)]
+
+theorem edge_instant' (a : Asset) (r : Rep) (hadm : a.loopMS * r.T = 1000 * r.dur) (hc : Closes a r)
+    (x atoMS : Nat) (hl : 0 < a.loopMS) (hD : 0 < r.dur) :
+    (x / a.loopMS + (x % a.loopMS + atoMS) * r.T / 1000 / r.dur) * wrapDur a r + (x % a.loopMS + atoMS) * r.T / 1000 % r.dur
+      = (x + atoMS) * r.T / 1000 := edge_instant a r hadm hc x atoMS hl hD
+
+/-! ## the last listed entry -/
+
+theorem sub_div_mul_add (x l s n : Nat) (hx : x = n - s) (hs : s ≤ n) : n - (x / l * l + s) = x % l := by
+  have := Nat.div_add_mod x l
+  have hm : x / l * l = l * (x / l) := Nat.mul_comm _ _
+  omega
+
+theorem calcWrapTimes_now (a : Asset) (startS nowMS tsbdS : Nat) (hnow : startS * 1000 ≤ nowMS) :
+    (calcWrapTimes a startS nowMS tsbdS).nowWraps = (nowMS - startS * 1000) / a.loopMS ∧
+    (calcWrapTimes a startS nowMS tsbdS).nowRelMS = (nowMS - startS * 1000) % a.loopMS :=
+  ⟨rfl, sub_div_mul_add (nowMS - startS * 1000) a.loopMS (startS * 1000) nowMS rfl hnow⟩
+
+theorem calcWrapTimes_start (a : Asset) (startS nowMS tsbdS : Nat) :
+    ∃ xs, xs ≤ nowMS - startS * 1000 ∧
+    (calcWrapTimes a startS nowMS tsbdS).startWraps = xs / a.loopMS ∧
+    (calcWrapTimes a startS nowMS tsbdS).startRelMS = xs % a.loopMS :=
+  ⟨max (nowMS - tsbdS * 1000) (startS * 1000) - startS * 1000, by omega, rfl,
+    sub_div_mul_add _ a.loopMS (startS * 1000) (max (nowMS - tsbdS * 1000) (startS * 1000)) rfl (Nat.le_max_right _ _)⟩
+
+/-- **What `generateTimelineEntries` lists last**: nothing when no segment has ended at the instant (less the offset),
+otherwise the list is not empty and its last number is the `k` with `E k ≤ τ < E (k+1)`, `τ` the instant in ticks. -/
+theorem genTimeline_last (a : Asset) (r : Rep) (h : Contig r) (hc : Closes a r)
+    (hadm : a.loopMS * r.T = 1000 * r.dur) (hl : 0 < a.loopMS)
+    (startS nowMS tsbdS atoMS : Nat) (hnow : startS * 1000 ≤ nowMS) :
+    ((genTimeline r (calcWrapTimes a startS nowMS tsbdS) atoMS).startNr = -1 ∧
+      (genTimeline r (calcWrapTimes a startS nowMS tsbdS) atoMS).entries = [] ∧
+      (nowMS - startS * 1000 + atoMS) * r.T / 1000 < E a r 0) ∨
+    (∃ k : Nat, (genTimeline r (calcWrapTimes a startS nowMS tsbdS) atoMS).startNr +
+        ((genTimeline r (calcWrapTimes a startS nowMS tsbdS) atoMS).entries.length : Int) - 1 = (k : Int) ∧
+      0 ≤ (genTimeline r (calcWrapTimes a startS nowMS tsbdS) atoMS).startNr ∧
+      (genTimeline r (calcWrapTimes a startS nowMS tsbdS) atoMS).entries ≠ [] ∧
+      E a r k ≤ (nowMS - startS * 1000 + atoMS) * r.T / 1000 ∧
+      (nowMS - startS * 1000 + atoMS) * r.T / 1000 < E a r (k + 1)) := by
+  have hb := contig_stop_le_dur a r h hc 0 h.1
+  have hD : 0 < r.dur := by rw [← hc.1]; omega
+  have hD0 : ¬ r.dur = 0 := by omega
+  obtain ⟨hnw, hnr⟩ := calcWrapTimes_now a startS nowMS tsbdS hnow
+  obtain ⟨xs, hxs, hsw, hsr⟩ := calcWrapTimes_start a startS nowMS tsbdS
+  unfold genTimeline
+  simp only [hD0, ↓reduceIte, hnw, hnr, hsw, hsr]
+  generalize hx : nowMS - startS * 1000 = x at *
+  have hmodn : (x % a.loopMS + atoMS) * r.T / 1000 % r.dur < wrapDur a r := by rw [hc.1]; exact Nat.mod_lt _ hD
+  have hmods : (xs % a.loopMS + atoMS) * r.T / 1000 % r.dur < wrapDur a r := by rw [hc.1]; exact Nat.mod_lt _ hD
+  have ein := edge_instant' a r hadm hc x atoMS hl hD
+  have eis := edge_instant' a r hadm hc xs atoMS hl hD
+  cases hen : edgeIdx r (x / a.loopMS + (x % a.loopMS + atoMS) * r.T / 1000 / r.dur) ((x % a.loopMS + atoMS) * r.T / 1000 % r.dur) with
+  | none =>
+    left
+    refine ⟨rfl, rfl, ?_⟩
+    unfold edgeIdx at hen
+    by_cases hf : finishedCount r.segs ((x % a.loopMS + atoMS) * r.T / 1000 % r.dur) = 0
+    · rw [if_pos hf] at hen
+      by_cases hw : x / a.loopMS + (x % a.loopMS + atoMS) * r.T / 1000 / r.dur = 0
+      · have hnot := finishedCount_next_not_ended r.segs ((x % a.loopMS + atoMS) * r.T / 1000 % r.dur)
+          (by rw [hf]; have := h.1; unfold Rep.N at this; exact this)
+        rw [hf] at hnot
+        rw [hw, Nat.zero_mul, Nat.zero_add] at ein
+        rw [← ein]
+        have e0 := E_decomp a r 0 0 h.1
+        simp only [Nat.mul_zero, Nat.zero_add, Nat.zero_mul] at e0
+        rw [e0]
+        exact hnot
+      · rw [if_neg hw] at hen; cases hen
+    · rw [if_neg hf] at hen; cases hen
+  | some p =>
+    obtain ⟨nw', ni⟩ := p
+    right
+    have spn := edgeIdx_spec a r h hc _ _ nw' ni hmodn hen
+    rw [ein] at spn
+    obtain ⟨hni, hE1, hE2⟩ := spn
+    -- the start edge is not after the now edge
+    have hstart : ((edgeIdx r (xs / a.loopMS + (xs % a.loopMS + atoMS) * r.T / 1000 / r.dur)
+        ((xs % a.loopMS + atoMS) * r.T / 1000 % r.dur)).getD (0, 0)).1 * r.N +
+        ((edgeIdx r (xs / a.loopMS + (xs % a.loopMS + atoMS) * r.T / 1000 / r.dur)
+        ((xs % a.loopMS + atoMS) * r.T / 1000 % r.dur)).getD (0, 0)).2 ≤ nw' * r.N + ni := by
+      cases hes : edgeIdx r (xs / a.loopMS + (xs % a.loopMS + atoMS) * r.T / 1000 / r.dur)
+          ((xs % a.loopMS + atoMS) * r.T / 1000 % r.dur) with
+      | none => simp
+      | some q =>
+        obtain ⟨sw', si⟩ := q
+        have sps := edgeIdx_spec a r h hc _ _ sw' si hmods hes
+        rw [eis] at sps
+        have hmono : (xs + atoMS) * r.T / 1000 ≤ (x + atoMS) * r.T / 1000 :=
+          Nat.div_le_div_right (Nat.mul_le_mul_right _ (by omega))
+        have hlt : E a r (r.N * sw' + si) < E a r (r.N * nw' + ni + 1) := by omega
+        simp only [Option.getD_some]
+        rcases Nat.lt_or_ge (r.N * sw' + si) (r.N * nw' + ni + 1) with hh | hh
+        · rw [Nat.mul_comm sw', Nat.mul_comm nw']; omega
+        · exfalso
+          rcases Nat.eq_or_lt_of_le hh with he | hlt'
+          · rw [he] at hlt; omega
+          · have := E_strictMono a r h hc _ _ hlt'; omega
+    generalize ((edgeIdx r (xs / a.loopMS + (xs % a.loopMS + atoMS) * r.T / 1000 / r.dur)
+        ((xs % a.loopMS + atoMS) * r.T / 1000 % r.dur)).getD (0, 0)) = se0 at hstart
+    simp only []
+    generalize hsn : se0.1 * r.N + se0.2 = startNr at hstart
+    have hlen : (listFrom r startNr (nw' * r.N + ni + 1 - startNr) (r.dur * se0.1 + (r.seg se0.2).start)).length
+        = nw' * r.N + ni + 1 - startNr := listFrom_length _ _ _ _
+    have hne : (listFrom r startNr (nw' * r.N + ni + 1 - startNr) (r.dur * se0.1 + (r.seg se0.2).start)).isEmpty = false := by
+      rw [List.isEmpty_eq_false_iff]; intro hnil; rw [hnil] at hlen; simp at hlen; omega
+    simp only [hne, Bool.false_eq_true, ↓reduceIte]
+    refine ⟨nw' * r.N + ni, ?_, by omega, ?_, ?_, ?_⟩
+    · rw [hlen]; omega
+    · intro hnil; rw [hnil] at hlen; simp at hlen; omega
+    · rw [Nat.mul_comm nw']; exact hE1
+    · rw [Nat.mul_comm nw']; exact hE2
+
 end Core
